@@ -140,6 +140,8 @@ def run_case(ctx, g, rng):
     # (new names may contain the converter's own delimiter: remapping is about names, not about CURIE syntax)
     unknown = [x for x in alpha + ["zz", "yy", "ncbi" + d + "geo", d + "n"] if x not in known]
     rng.shuffle(unknown)
+    if rng.random() < 0.15 and "" not in known:
+        unknown.insert(0, "")  # the empty prefix (the default namespace) is a name like any other - and falsy (seed C11-Q)
     if rng.random() < 0.3 and known:
         # an unknown name that a lenient reader would take for a known one (another letter case, a blank at the edge, a
         # byte order mark): unknown all the same - as old prefix it is skipped, as new prefix it is simply new
